@@ -6,6 +6,13 @@
     * the pure parsers every Linux sysfs read goes through (`hwloc__read_fd`, `…_as_cpulist`,
       `…_as_cpumask`, model in Hw/Io/LinuxParse.lean, tied to the C code by the `linuxparse` engine):
       specification on well-formed kernel files, safety on arbitrary bytes / arbitrary read() patterns;
+    * (A9) the next layer of string / number logic of topology-linux.c, for EVERY file content: the numeric
+      readers `hwloc_read_path_by_length / _as_int / _as_uint / _as_uint64`, `hwloc_parse_meminfo_info`,
+      `hwloc_parse_hugepages_info` (Hw/Io/LinuxNum.lean) and the cgroup / cpuset handling
+      `hwloc_linux__get_allowed_resources` = `hwloc_find_linux_cgroup_mntpnt` (glibc getmntent_r modelled) +
+      `hwloc_read_linux_cgroup_name` + `hwloc_admin_disable_set_from_cgroup` (Hw/Io/LinuxCgroup.lean): every
+      store stays inside the fixed C buffers, every pointer stays inside its string, the loops end, and the
+      results are characterised (first matching line / first key / value of the leading digits);
     * the relations the `snapshots` engine judges loads with (`SameTopo`, `DisallowedView`, `XmlEquiv`,
       Hw/Topo/Relations.lean): their executable checkers are exact, they are equivalences where claimed,
       and `DisallowedView` + `WF` give the inclusion clauses of the property statement.
@@ -13,9 +20,11 @@
   is NOT proved: it is checked by these proved oracles on every load of every run.
 -/
 import Hw.Io.LinuxParseLemmas
+import Hw.Io.LinuxNumLemmas
+import Hw.Io.LinuxCgroupLemmas
 import Hw.Topo.Relations
 namespace Hw.Props.C18
-open Hw Hw.LinuxParse Hw.Topo
+open Hw Hw.LinuxParse Hw.Topo Hw.LinuxNum Hw.LinuxCgroup
 
 /-! ### cpulist -/
 
@@ -118,6 +127,231 @@ theorem C18_disallowed_objects_trans {a b c : Dump} (h1 : DisallowedView a b) (h
     (∀ i, i ∈ a.osIndexes tPU → i ∈ c.osIndexes tPU) ∧ (∀ i, i ∈ a.osIndexes tNUMA → i ∈ c.osIndexes tNUMA) :=
   h1.objects_trans h2
 
+
+/-! ### (A9) hwloc_read_path_by_length and the numeric readers -/
+
+/-- every file content, every buffer size: a successful read stores exactly the first `length-1` bytes of the
+file, at least one, and the terminating NUL `string[ret] = 0` is written inside the `length`-byte buffer -/
+theorem C18_readlen_bounds (length : Nat) (content buf : List Byte) (h : readByLength length content = some buf) :
+    buf = content.take (length - 1) ∧ 0 < buf.length ∧ buf.length < length := readByLength_some length content buf h
+
+/-- -1 exactly for an empty file (or a buffer with no room for a byte) -/
+theorem C18_readlen_fails_iff (length : Nat) (content : List Byte) :
+    readByLength length content = none ↔ (content = [] ∨ length ≤ 1) := readByLength_none_iff length content
+
+/-- the readers depend only on the first K bytes of the file: K = 10 (int, unsigned), 21 (uint64), 4095 (meminfo) -/
+theorem C18_readers_prefix (c : List Byte) :
+    readInt (some c) = readInt (some (c.take 10)) ∧ readUint (some c) = readUint (some (c.take 10)) ∧
+    readUint64 (some c) = readUint64 (some (c.take 21)) ∧ meminfo (some c) = meminfo (some (c.take 4095)) := by
+  refine ⟨?_, ?_, ?_, ?_⟩
+  · unfold readInt; rw [readPath_prefix intBuf c (c.take 10) (by simp [intBuf, List.take_take])]
+  · unfold readUint; rw [readPath_prefix uintBuf c (c.take 10) (by simp [uintBuf, List.take_take])]
+  · unfold readUint64; rw [readPath_prefix u64Buf c (c.take 21) (by simp [u64Buf, List.take_take])]
+  · exact meminfo_prefix c (c.take 4095) (by simp [List.take_take])
+
+/-- C strings in the buffer end at or before the NUL that was stored: every libc scan stays inside -/
+theorem C18_cstr_inside (buf : List Byte) : (cstr buf).length ≤ buf.length := cstr_length_le buf
+
+/-- `hwloc_read_path_as_uint` on a file that starts with decimal digits (followed by anything that is no digit,
+e.g. the kernel's newline, or nothing): the value of the digits that fit `char string[11]` (the first 10),
+saturated by strtoul at 2^64-1, reduced modulo 2^32 by the `(unsigned)` cast -/
+theorem C18_uint_value (ds rest : List Byte) (hne : ds ≠ []) (hds : ∀ c ∈ ds, IsDecChar c) (hr : NoDecHead rest) :
+    readUint (some (ds ++ rest)) = some (min (decVal (ds.take 10)) ulongMax % 2^32) := readUint_decs ds rest hne hds hr
+
+/-- `hwloc_read_path_as_uint64`: the first 21 digits, saturated at 2^64-1 (strtoull) -/
+theorem C18_uint64_value (ds rest : List Byte) (hne : ds ≠ []) (hds : ∀ c ∈ ds, IsDecChar c) (hr : NoDecHead rest) :
+    readUint64 (some (ds ++ rest)) = some (min (decVal (ds.take 21)) ulongMax) := readUint64_decs ds rest hne hds hr
+
+/-- `hwloc_read_path_as_int` (atoi): the first 10 digits, saturated by strtol, reduced into the `int` range -/
+theorem C18_int_value (ds rest : List Byte) (hne : ds ≠ []) (hds : ∀ c ∈ ds, IsDecChar c) (hr : NoDecHead rest) :
+    readInt (some (ds ++ rest)) = some (wrapInt32 ((min (decVal (ds.take 10)) (2^63 - 1) : Nat) : Int)) :=
+  readInt_decs ds rest hne hds hr
+
+/-- every file: the values delivered fit their C types (total functions: no other outcome exists) -/
+theorem C18_num_ranges (f : Option (List Byte)) :
+    (∀ v, readInt f = some v → -(2^31 : Int) ≤ v ∧ v < 2^31) ∧ (∀ v, readUint f = some v → v < 2^32) :=
+  ⟨readInt_range f, readUint_range f⟩
+
+/-! ### (A9) hwloc_parse_meminfo_info -/
+
+/-- every file: a value is stored iff `MemTotal: ` occurs in the C string of the 4096-byte buffer; it is then
+the number behind the FIRST occurrence (strtoull base 10) times 1024 modulo 2^64, and `tmp+10` points inside
+the string (at most at its NUL) -/
+theorem C18_meminfo_first_key (f : Option (List Byte)) (v : Nat) :
+    meminfo f = some v ↔
+      ∃ b i, readPath memBuf f = some b ∧ FirstOcc memKey (cstr b) i ∧ i + 10 ≤ (cstr b).length ∧
+        v = ((strtoulS 10 ((cstr b).drop (i + 10))).1 <<< 10) % 2^64 := meminfo_some_iff f v
+
+/-- `*local_memory` keeps its old value exactly when the file is unreadable / empty or has no key in reach -/
+theorem C18_meminfo_keeps_iff (f : Option (List Byte)) :
+    meminfo f = none ↔ (readPath memBuf f = none ∨
+      ∃ b, readPath memBuf f = some b ∧ ∀ j, j ≤ (cstr b).length → ¬ memKey <+: (cstr b).drop j) := meminfo_none_iff f
+
+/-- the kernel's format (global and per-node meminfo alike): anything, then `MemTotal:` + blanks + decimal digits +
+anything that is no digit, the key not occurring earlier, the file NUL-free and within the 4095 bytes read: the value
+stored is the number of kB (saturated at 2^64-1 by strtoull) times 1024, modulo 2^64 -/
+theorem C18_meminfo_kernel (pre ds rest : List Byte) (k : Nat) (hne : ds ≠ []) (hds : ∀ c ∈ ds, IsDecChar c) (hr : NoDecHead rest)
+    (hfit : (pre ++ (memKey ++ (List.replicate k 32 ++ (ds ++ rest)))).length ≤ 4095)
+    (hnz : ∀ c ∈ pre ++ (memKey ++ (List.replicate k 32 ++ (ds ++ rest))), c ≠ 0)
+    (hfirst : ∀ j, j < pre.length → ¬ memKey <+: (pre ++ (memKey ++ (List.replicate k 32 ++ (ds ++ rest)))).drop j) :
+    meminfo (some (pre ++ (memKey ++ (List.replicate k 32 ++ (ds ++ rest))))) = some ((min (decVal ds) ulongMax * 1024) % 2^64) :=
+  meminfo_kernel pre ds rest k hne hds hr hfit hnz hfirst
+
+/-- strstr: the index found is the first occurrence, and only that -/
+theorem C18_strstr_first (pat s : List Byte) (i : Nat) : findSub pat s = some i ↔ FirstOcc pat s i := findSub_iff pat s i
+
+/-! ### (A9) hwloc_parse_hugepages_info -/
+
+/-- every directory listing, every file content, any initial `allocated_page_types ≥ 1`: every store into
+`page_types[index_]` is below the allocation of that moment, and `page_types_len ≤ allocated_page_types` -/
+theorem C18_hugepages_safe (dirlen alloc0 remaining : Nat) (h0 : 1 ≤ alloc0) (entries : List HPEntry) :
+    (∀ w ∈ (hugepages dirlen alloc0 remaining entries).writes, w.1 < w.2) ∧
+    (hugepages dirlen alloc0 remaining entries).index ≤ (hugepages dirlen alloc0 remaining entries).alloc :=
+  ⟨(hugepages_ok dirlen alloc0 remaining h0 entries).writes_ok, (hugepages_ok dirlen alloc0 remaining h0 entries).index_le⟩
+
+/-! ### (A9) hwloc_read_linux_cgroup_name -/
+
+/-- fgets: at most `n-1` bytes stored (the NUL fits), nothing lost, and progress on a non-empty stream -/
+theorem C18_fgets_bounds (n : Nat) (s : List Byte) :
+    (fgets n s).1.length ≤ n - 1 ∧ (fgets n s).1 ++ (fgets n s).2 = s ∧
+    (2 ≤ n → s ≠ [] → (fgets n s).2.length < s.length) :=
+  ⟨fgets_length n s, fgetsAux_append _ s, fun hn hs => fgets_progress n hn s hs⟩
+
+/-- /proc/self/cpuset wins: with at least one byte in it the name is its first line (first 127 bytes, up to a
+NUL), whatever /proc/self/cgroup holds -/
+theorem C18_cgname_cpuset_wins (c : List Byte) (hc : c ≠ []) (cg : Option (List Byte)) :
+    cgroupName (some c) cg = some (chopNl (cstr (c.take 127))) := cgroupName_cpuset_file c hc cg
+
+/-- every /proc/self/cgroup content: the loop returns the path of the FIRST fgets line (256-byte buffer: longer
+lines are seen in pieces) whose first colon starts `:cpuset:` or `::` -/
+theorem C18_cgname_first_match (fuel : Nat) (s : List Byte) :
+    cgLoop fuel s = (chunks cgroupLineLen fuel s).findSome? (fun ch => cgLineMatch (cstr ch)) := cgLoop_eq_findSome fuel s
+
+/-- the loop ends: the fuel `length+1` that `cgroupName` passes is enough, more fuel changes nothing -/
+theorem C18_cgname_terminates (fuel : Nat) (s : List Byte) (h : s.length < fuel) : cgLoop fuel s = cgLoop (s.length + 1) s :=
+  cgLoop_fuel fuel (s.length + 1) s h (by omega)
+
+/-- well-formed kernel content (newline-terminated lines shorter than the buffer, no NUL): the name is the path of
+the first line of the form `<no colon>:cpuset:<path>` or `<no colon>::<path>` -/
+theorem C18_cgname_kernel (ls : List (List Byte))
+    (hwf : ∀ l ∈ ls, (∀ c ∈ l, c ≠ 10 ∧ c ≠ 0) ∧ l.length + 1 ≤ cgroupLineLen - 1) :
+    cgroupName none (some (joinLines ls)) = ls.findSome? (fun l => cgLineMatch (l ++ [10])) := by
+  unfold cgroupName readPath
+  simp only [Option.bind_none]
+  exact cgLoop_joinLines ls _ (by have := joinLines_length_ge ls; omega) hwf
+
+theorem C18_cgname_line_forms (pre path r : List Byte) (hpre : ∀ c ∈ pre, c ≠ 58) (hpath : ∀ c ∈ path, c ≠ 10) :
+    cgLineMatch (pre ++ str ":cpuset:" ++ path ++ 10 :: r) = some path ∧
+    cgLineMatch (pre ++ str "::" ++ path ++ 10 :: r) = some path ∧
+    cgLineMatch pre = none :=
+  ⟨cgLineMatch_v1 pre path r hpre hpath, cgLineMatch_v2 pre path r hpre hpath, cgLineMatch_nocolon pre hpre⟩
+
+/-- pointer safety: the path handed to strdup starts at `line + k`, `k ≤ strlen(line)` (`colon+8` / `colon+2`
+never pass the NUL), and the name returned is at most 255 bytes long -/
+theorem C18_cgname_safe :
+    (∀ line p, cgLineMatch line = some p → ∃ k, k ≤ line.length ∧ p = chopNl (line.drop k)) ∧
+    (∀ a b p, cgroupName a b = some p → p.length ≤ 255) :=
+  ⟨cgLineMatch_inside, cgroupName_length⟩
+
+/-! ### (A9) hwloc_find_linux_cgroup_mntpnt -/
+
+/-- the three standard mount points are tried first, in this order, and win over /proc/mounts -/
+theorem C18_mntpnt_standard (acc : List Byte → Bool) (fs : FS) (bufsiz : Nat) (mounts : Option (List Byte)) :
+    (acc (str "/sys/fs/cgroup/cpuset.cpus.effective") = true →
+      findMntpnt acc fs bufsiz mounts = some (.cgroup2, str "/sys/fs/cgroup")) ∧
+    (acc (str "/sys/fs/cgroup/cpuset.cpus.effective") = false → acc (str "/sys/fs/cgroup/cpuset/cpuset.cpus") = true →
+      findMntpnt acc fs bufsiz mounts = some (.cgroup1, str "/sys/fs/cgroup/cpuset")) ∧
+    (acc (str "/sys/fs/cgroup/cpuset.cpus.effective") = false → acc (str "/sys/fs/cgroup/cpuset/cpuset.cpus") = false →
+      acc (str "/dev/cpuset/cpus") = true → findMntpnt acc fs bufsiz mounts = some (.cpuset, str "/dev/cpuset")) :=
+  findMntpnt_standard acc fs bufsiz mounts
+
+/-- otherwise, for every /proc/mounts content: the answer is what the rule says about the FIRST entry (as
+delivered by getmntent_r) that the rule accepts; entries behind it are never looked at -/
+theorem C18_mntpnt_first_match (acc : List Byte → Bool) (fs : FS) (bufsiz : Nat) (m : List Byte)
+    (h1 : acc (str "/sys/fs/cgroup/cpuset.cpus.effective") = false) (h2 : acc (str "/sys/fs/cgroup/cpuset/cpuset.cpus") = false)
+    (h3 : acc (str "/dev/cpuset/cpus") = false) :
+    findMntpnt acc fs bufsiz (some m) = (entries bufsiz (m.length + 1) m).findSome? (entMatch fs) ∧
+    (∀ pre e post r, entries bufsiz (m.length + 1) m = pre ++ e :: post → (∀ y ∈ pre, entMatch fs y = none) →
+      entMatch fs e = some r → findMntpnt acc fs bufsiz (some m) = some r) := by
+  have h := findMntpnt_scan acc fs bufsiz m h1 h2 h3
+  refine ⟨h, fun pre e post r he hpre hx => ?_⟩
+  rw [h, he]; exact findSome_first _ pre e post r hpre hx
+
+/-- well-formed kernel content (`fsname dir type opts 0 0` lines with plain fields — nothing to escape, no
+comment —, each shorter than the 4-page buffer): getmntent_r delivers exactly these entries, so the answer is the
+rule's verdict on the first line the rule accepts -/
+theorem C18_mntpnt_kernel (acc : List Byte → Bool) (fs : FS) (bufsiz : Nat) (rs : List MntRaw) (hwf : ∀ r ∈ rs, r.Ok bufsiz)
+    (h1 : acc (str "/sys/fs/cgroup/cpuset.cpus.effective") = false) (h2 : acc (str "/sys/fs/cgroup/cpuset/cpuset.cpus") = false)
+    (h3 : acc (str "/dev/cpuset/cpus") = false) :
+    findMntpnt acc fs bufsiz (some (renderMounts rs)) = (rs.map MntRaw.ent).findSome? (entMatch fs) := by
+  rw [findMntpnt_scan acc fs bufsiz _ h1 h2 h3,
+    entries_renderMounts bufsiz rs _ (by have := renderMounts_length_ge rs; omega) hwf]
+
+/-- the scan ends for every content: the fuel `length+1` that `findMntpnt` passes is enough (each getmntent_r call
+consumes at least one byte), more fuel changes nothing -/
+theorem C18_mntpnt_terminates (fs : FS) (bufsiz : Nat) (hb : 2 ≤ bufsiz) (fuel : Nat) (s : List Byte) (h : s.length < fuel) :
+    mntLoop fs bufsiz fuel s = mntLoop fs bufsiz (s.length + 1) s ∧
+    nextEnt bufsiz fuel s = nextEnt bufsiz (s.length + 1) s ∧
+    (∀ e r, nextEnt bufsiz fuel s = some (e, r) → r.length < s.length) :=
+  ⟨mntLoop_fuel fs bufsiz hb fuel _ s h (by omega), nextEnt_fuel bufsiz hb fuel _ s h (by omega),
+   fun e r => nextEnt_rest bufsiz hb fuel s e r⟩
+
+/-- the rule, by file-system type: `cpuset` always; `cgroup` iff `cpuset` is one of the comma-separated options
+(a cpuset mount when `noprefix` is one too); `cgroup2` iff `<dir>/cgroup.controllers` (name cut at 255 bytes)
+can be read and `cpuset` is one of the space-separated words of its first line within the first 1023 bytes;
+nothing else; and the mount point returned is always the directory field of the accepted entry -/
+theorem C18_mntpnt_rule (fs : FS) (e : MntEnt) :
+    (e.type = str "cpuset" → entMatch fs e = some (.cpuset, e.dir)) ∧
+    (e.type = str "cgroup" → entMatch fs e =
+      (if (splitBy 44 e.opts).contains (str "cpuset") then
+        (if (splitBy 44 e.opts).contains (str "noprefix") then some (.cpuset, e.dir) else some (.cgroup1, e.dir))
+       else none)) ∧
+    (e.type = str "cgroup2" → entMatch fs e =
+      (match readPath ctrlsLen (fs (ctrlPath e.dir)) with
+       | some b => if ctrlHasCpuset b then some (.cgroup2, e.dir) else none
+       | none => none)) ∧
+    (e.type ≠ str "cgroup2" → e.type ≠ str "cpuset" → e.type ≠ str "cgroup" → entMatch fs e = none) ∧
+    (∀ t d, entMatch fs e = some (t, d) → d = e.dir) :=
+  ⟨entMatch_cpuset fs e, entMatch_cgroup1 fs e, entMatch_cgroup2 fs e, entMatch_other fs e, entMatch_dir fs e⟩
+
+/-- buffers: `snprintf(ctrlpath, 256, "%s/cgroup.controllers")` stays inside `char ctrlpath[256]` for every mount
+directory, and glibc's in-place `decode_name` never lengthens a field -/
+theorem C18_mntpnt_buffers (dir field : List Byte) :
+    (ctrlPath dir).length < ctrlPathLen ∧ (decodeName field).length ≤ field.length :=
+  ⟨ctrlPath_length dir, decodeName_length field⟩
+
+/-! ### (A9) hwloc_admin_disable_set_from_cgroup, hwloc_linux__get_allowed_resources -/
+
+/-- the cpuset file name always fits `char cpuset_filename[256]`; when nothing is cut it is
+`<mntpnt><cgroup name>/cpuset.<attr>.effective` (cgroup2), `…/cpuset.<attr>` (cgroup1), `…/<attr>` (cpuset) -/
+theorem C18_admin_path (t : CgType) (mnt name attr : List Byte) :
+    (cpusetPath t mnt name attr).length < cpusetFilenameLen ∧
+    ((mnt ++ name ++ cpusetSuffix t attr).length ≤ 255 → cpusetPath t mnt name attr = mnt ++ name ++ cpusetSuffix t attr) :=
+  ⟨cpusetPath_length t mnt name attr, cpusetPath_exact t mnt name attr⟩
+
+/-- what is combined with what: nothing is intersected.  The set is REPLACED by the cpulist read from that file
+(`hwloc__read_path_as_cpulist`, see `C18_cpulist_spec` / `C18_cpulist_safe`), or filled when the file cannot be
+read; its previous content never matters -/
+theorem C18_admin_replaces (fs : FS) (t : CgType) (mnt name attr : List Byte) (s s' : Bitmap) :
+    adminDisable fs t mnt name attr s = adminDisable fs t mnt name attr s' ∧
+    (fs (cpusetPath t mnt name attr) = none → adminDisable fs t mnt name attr s = some s.fill) ∧
+    (∀ c, fs (cpusetPath t mnt name attr) = some c → adminDisable fs t mnt name attr s = cpulist s c) :=
+  ⟨adminDisable_replaces fs t mnt name attr s s', adminDisable_missing fs t mnt name attr s,
+   fun c h => adminDisable_file fs t mnt name attr c s h⟩
+
+/-- the composition: without a mount point or without a cgroup name nothing changes and `*cpuset_namep = NULL`;
+otherwise both allowed sets are replaced through the same (type, mount point, name) triple -/
+theorem C18_allowed_compose (acc : List Byte → Bool) (fs : FS) (bufsiz : Nat) (cpus mems : Bitmap) :
+    ((findMntpnt acc fs bufsiz (fs (str "/proc/mounts")) = none ∨
+      cgroupName (fs (str "/proc/self/cpuset")) (fs (str "/proc/self/cgroup")) = none) →
+      getAllowed acc fs bufsiz cpus mems = { name := none, cpus := some cpus, mems := some mems }) ∧
+    (∀ t mnt name, findMntpnt acc fs bufsiz (fs (str "/proc/mounts")) = some (t, mnt) →
+      cgroupName (fs (str "/proc/self/cpuset")) (fs (str "/proc/self/cgroup")) = some name →
+      getAllowed acc fs bufsiz cpus mems =
+        { name := some name, cpus := adminDisable fs t mnt name (str "cpus") cpus,
+          mems := adminDisable fs t mnt name (str "mems") mems }) :=
+  ⟨getAllowed_untouched acc fs bufsiz cpus mems, fun t mnt name => getAllowed_found acc fs bufsiz cpus mems t mnt name⟩
+
 /-! ### non-vacuity -/
 
 example : AscFrom 0 [(0, 3), (8, 11), (13, 13)] := by simp [AscFrom]
@@ -146,5 +380,66 @@ example : ¬ DisallowedView exIncl exDefault := fun h => by
   have := (disallowedCheck_iff _ _).mpr h
   revert this; decide
 example : ¬ SameTopo exDefault exIncl := by unfold SameTopo; decide
+
+
+/-! ### (A9) non-vacuity -/
+
+example : readByLength 11 (str "4294967297\n") = some (str "4294967297") := by decide
+/-- ten digits fill `char string[11]`: the newline is cut, the value wraps modulo 2^32 -/
+example : readUint (some (str "4294967297\n")) = some 1 := by decide
+/-- the hypotheses of `C18_uint_value` / `C18_uint64_value` / `C18_int_value` are met by what the kernel writes -/
+example : (∀ c ∈ str "4294967297", IsDecChar c) ∧ NoDecHead (str "\n") ∧ decVal (str "4294967297") = 4294967297 := by
+  refine ⟨by unfold IsDecChar; decide, ?_, by decide⟩
+  intro c cs h
+  have e : str "\n" = [10] := by decide
+  rw [e] at h; injection h with h1 _; subst h1
+  unfold IsDecChar; decide
+/-- an eleventh digit is never seen -/
+example : readUint (some (str "12345678901\n")) = some 1234567890 := by decide
+example : readInt (some (str "-42\n")) = some (-42) ∧ readInt (some (str "2147483648\n")) = some (-2147483648) := by decide
+example : readUint64 (some (str "99999999999999999999999\n")) = some (2^64 - 1) := by decide
+example : readUint64 (some (str "-1\n")) = some (2^64 - 1) := by decide
+example : meminfo (some (str "MemFree: 5 kB\nMemTotal:       16384 kB\nMemTotal: 7 kB\n")) = some (16384 * 1024) := by decide
+example : FirstOcc memKey (str "XMemTotal: 3") 1 := (findSub_iff _ _ _).mp (by decide)
+example : meminfo (some (str "MemTotal:\t7 kB\n")) = none := by decide
+/-- three hugepage sizes into a 1-slot array: grown to 2, then 4; the entry without a readable count is overwritten -/
+example : (hugepages 3 1 (10 * 2^30) [⟨str "hugepages-2048kB", some (str "512\n")⟩, ⟨str "other", none⟩,
+      ⟨str "hugepages-64kB", none⟩, ⟨str "hugepages-1048576kB", some (str "2\n")⟩]) =
+    { types := [(2048 * 1024, 512), (2^30, 2)], pending := none, alloc := 4, remaining := 7 * 2^30,
+      writes := [(2, 4), (2, 4), (1, 2)] } := by decide
+example : fgets 5 (str "abcdefg\nxy") = (str "abcd", str "efg\nxy") ∧ fgets 256 (str "ab\ncd") = (str "ab\n", str "cd") := by decide
+example : cgroupName none (some (str "12:memory:/m\n3:cpu,cpuset:/no\n5:cpuset:/grp1\n0::/unified\n")) = some (str "/grp1") := by decide
+example : joinLines [str "11:memory:/m", str "0::/user.slice"] = str "11:memory:/m\n0::/user.slice\n" := by decide
+example : cgroupName (some (str "/a\nb\n")) (some (str "5:cpuset:/grp1\n")) = some (str "/a") := by decide
+example : decodeName (str "/my\\040cg\\134x\\\\y\\012") = str "/my cg\\x\\y\n" := by decide
+example : (nextEnt 16384 9 (str "# c\n \ncgroup /my\\040cg cgroup rw,cpuset 0 0\nrest")).map (·.1) =
+    some { dir := str "/my cg", type := str "cgroup", opts := str "rw,cpuset" } := by decide
+def exFs : FS := fun p => if p = str "/cg2/cgroup.controllers" then some (str "cpu cpuset io\n") else
+  if p = str "/cg2/grp1/cpuset.cpus.effective" then some (str "0-3\n") else
+  if p = str "/proc/mounts" then some (str "proc /proc proc rw 0 0\ncgroup2 /cg2 cgroup2 rw,nsdelegate 0 0\nnone /cs cpuset rw 0 0\n") else
+  if p = str "/proc/self/cgroup" then some (str "0::/grp1\n") else none
+/-- the cgroup2 line is accepted (its controllers file lists cpuset); the cpuset line behind it is not reached -/
+example : findMntpnt (fun _ => false) exFs 16384 (exFs (str "/proc/mounts")) = some (.cgroup2, str "/cg2") := by decide
+example : (entries 16384 80 (str "proc /proc proc rw 0 0\ncgroup2 /cg2 cgroup2 rw,nsdelegate 0 0\nnone /cs cpuset rw 0 0\n")).map (·.type) =
+    [str "proc", str "cgroup2", str "cpuset"] := by decide
+example : cpusetPath .cgroup2 (str "/cg2") (str "/grp1") (str "cpus") = str "/cg2/grp1/cpuset.cpus.effective" := by decide
+/-- cpus replaced by {0..3} from the effective file, mems filled (no mems file) -/
+example : getAllowed (fun _ => false) exFs 16384 Bitmap.allocFull Bitmap.alloc =
+    { name := some (str "/grp1"), cpus := some ⟨[0xf#64], false⟩, mems := some ⟨[BitVec.allOnes 64], true⟩ } := by decide
+
+/-- the hypotheses of `C18_mntpnt_kernel` are met by an ordinary container mount table -/
+example : (⟨str "cgroup", str "/sys/fs/cgroup/cpuset", str "cgroup", str "rw,nosuid,cpuset"⟩ : MntRaw).Ok 16384 := by
+  refine ⟨⟨by decide, by decide⟩, ⟨by decide, by decide⟩, ⟨by decide, by decide⟩, ⟨by decide, by decide⟩, ?_, by decide⟩
+  intro t h
+  have e : str "cgroup" = [99, 103, 114, 111, 117, 112] := by decide
+  rw [show (⟨str "cgroup", str "/sys/fs/cgroup/cpuset", str "cgroup", str "rw,nosuid,cpuset"⟩ : MntRaw).fsname = str "cgroup" from rfl, e] at h
+  injection h with h1 _
+  exact absurd h1 (by decide)
+example : renderMounts [⟨str "proc", str "/proc", str "proc", str "rw"⟩, ⟨str "none", str "/cs", str "cpuset", str "rw"⟩] =
+    str "proc /proc proc rw 0 0\nnone /cs cpuset rw 0 0\n" := by decide
+
+/-- the shape `C18_meminfo_kernel` speaks about: a per-node meminfo line -/
+example : str "Node 0 " ++ (memKey ++ (List.replicate 7 32 ++ (str "16384" ++ str " kB\n"))) = str "Node 0 MemTotal:        16384 kB\n" ∧
+    meminfo (some (str "Node 0 MemTotal:        16384 kB\n")) = some (16384 * 1024) := by decide
 
 end Hw.Props.C18
